@@ -26,6 +26,7 @@ def parseAtom (buf : List UInt8) (a : String) : Option Cond :=
   match a.toList with
   | ['T'] => some (.lit true)
   | ['F'] => some (.lit false)
+  | ['U'] => some (.lit false)     -- `uint8(100000) == 1`: undefined ⇒ does not hold (and/or treat it as false)
   | 'z' :: n => (String.ofList n).toNat?.map fun k => .lit (decide (buf.length > k))
   | 's' :: h => (Driver.unhex (String.ofList h)).map fun p => .str (p != [] && isInfix p buf)
   | 'n' :: h => (Driver.unhex (String.ofList h)).map fun p => .not (.str (p != [] && isInfix p buf))
